@@ -130,4 +130,37 @@ theorem C19_fragment_import_keeps_every_item (e : Env) (fuel : Nat) (ctx : Ctx) 
   have := routeM_expr e fuel ctx hctx n hx hq d k k' h u w
   exact ⟨this.1, this.2.2.2.1⟩
 
+/-- **Every configuration, permuted lists included.**  For an import statement whose parts lie in the
+covered fragment (items are paths or renamed items), whatever the printer returns carries — as tokens,
+comments, prose, literals, verbatim text, in this order — the part before the items, then the items in
+the order `importOrder` gives them: **sorted by key when reordering is on and the statement is sortable,
+in source order otherwise**.  So reordering moves whole items and nothing else: no item is lost,
+duplicated or altered, and the text before the items is untouched.  (`importPrinted`; no per-case
+certificate; `Carries` is what `routeM`'s stream equalities at every width follow from.) -/
+theorem C19_fragment_import_prints_items_in_import_order (e : Env) (fuel : Nat) (ctx : Ctx) (hctx : NM ctx)
+    (cs : List ANode) (a : Attrs) (hd : a.disabled = false) (hq : inFragL cs = true)
+    (hitems : (importFlattened cs).all (fun x => isImportItem x || isCommentKind x.kind || isIgnorable x) = true)
+    (d : Twin.Doc) (k k' : St) (h : ((knot e (fuel + 1)).expr ctx (.inner .moduleImport cs a)).run k = .ok (d, k')) :
+    Carries d ((specAllL (importPrefix cs)).app (specAllL (importPrinted e.cfg (importFlattened cs)))) := by
+  have hr := (knot_frag e fuel).1
+  have hp : Post (convExpr e (knot e fuel) ctx (.inner .moduleImport cs a))
+      (fun d => Carries d ((specAllL (importPrefix cs)).app (specAllL (importPrinted e.cfg (importFlattened cs))))) := by
+    unfold convExpr
+    refine Post.bind (Q := fun _ => True) (fun _ _ _ _ => trivial) (fun _ _ => ?_)
+    have hdis : (ANode.inner Kind.moduleImport cs a).attrs.disabled = false := hd
+    simp only [hdis, Bool.false_eq_true, ↓reduceIte]
+    show Post (convImport e (knot e fuel) ctx _) _
+    refine convImport_carries_general e (knot e fuel) hr impQ_frag ctx hctx cs a (inFragL_lex cs hq)
+      (fun c hc => inFragL_mem hq hc) ?_
+    intro x hx
+    have hqx := importFlattened_frag cs hq x hx
+    have := List.all_eq_true.mp hitems x hx
+    simp only [Bool.or_eq_true] at this
+    refine ⟨inFrag_lex x hqx, hqx, ?_⟩
+    rcases this with (h1 | h1) | h1
+    · exact Or.inl h1
+    · exact Or.inr (Or.inl h1)
+    · exact Or.inr (Or.inr h1)
+  exact hp k d k' h
+
 end Typstyle
